@@ -1,7 +1,118 @@
-import RulioModel.Loc
+import RulioProofs.SysLoop
 
-/-! # C09 — isolation (placeholder obligations until the Sys proofs land) -/
+open AM
 
-/-- writing a location back changes no other component -/
-theorem put_other (sys : Sys) (l : Loc) (n : String) (h : n ≠ l.name) (hk : ∀ p ∈ sys, (p.1 == n) = true → p.1 = n) :
-    True := trivial
+/-! # C09 — locations are isolated except through declared parents (property theorems only)
+
+Model: `RulioModel/Loc.lean` (`Sys`, `Sys.at`, `doAncestors`, `sysSearchFacts`, …), validated against
+`core/location.go` by the differential runs of the C09 check. Vocabulary: `RulioModel/SysInv.lean`. -/
+
+/-- **frame** — an operation addressed to location `n` (any name-preserving single-location computation;
+every model method is one, see `loc*_keeps`) changes only the component `n` of a well-formed system. -/
+theorem frame {α} {sys : Sys} (wf : SysWF sys) (n : String) {m : LM α} (hm : m.KeepsName)
+    {n' : String} (hne : n' ≠ n) : (sys.at n m).1.get? n' = sys.get? n' :=
+  Sys.at_frame wf n hm hne
+
+/-- well-formedness (unique names, every location filed under its own name) is an invariant of `Sys.at` -/
+theorem frame_wf {α} {sys : Sys} (wf : SysWF sys) (n : String) (m : LM α) : SysWF (sys.at n m).1 :=
+  Sys.at_wf wf n m
+
+/-- … and of `Sys.put` -/
+theorem frame_wf_put {sys : Sys} (wf : SysWF sys) (l : Loc) : SysWF (sys.put l) := wf.put l
+
+/-- every exported method of the location model is name-preserving, so `frame` applies to all of them
+(shown here for the mutating ones; the others are in `RulioProofs/SysBasic.lean`) -/
+theorem frame_applies (c : Ctx) (id : String) (x : Obj) (ps : List String) (b : Bool) (now : Int) :
+    (locAddFact c id x now).KeepsName ∧ (locRemFact c id now).KeepsName ∧ (locAddRule c id x now).KeepsName ∧
+    (locRemRule c id now).KeepsName ∧ (locEnableRule c id b now).KeepsName ∧ (locSetParents c ps now).KeepsName ∧
+    (locClear c now).KeepsName ∧ (locSearchFacts c x now).KeepsName ∧ (locSearchRules c x now).KeepsName :=
+  ⟨(locAddFact_keeps c id x now).keepsName, (locRemFact_keeps c id now).keepsName,
+   (locAddRule_keeps c id x now).keepsName, (locRemRule_keeps c id now).keepsName,
+   (locEnableRule_keeps c id b now).keepsName, (locSetParents_keeps c ps now).keepsName,
+   (locClear_keeps c now).keepsName, (locSearchFacts_keeps c x now).keepsName,
+   (locSearchRules_keeps c x now).keepsName⟩
+
+example : SysWF (Sys.fresh .indexed ["a", "b", "c"]) :=
+  ⟨by decide, by intro k l h; simp [Sys.fresh] at h; rcases h with ⟨rfl, rfl⟩ | ⟨rfl, rfl⟩ | ⟨rfl, rfl⟩ <;> rfl⟩
+
+/-- **ancestors_fuel_suffices** — the names on the current path are pairwise distinct known locations and
+every recursive call extends the path, so once `fuel + path.length > sys.length` the walk never reaches its
+`diverge` branch: any larger fuel gives the very same result (state and value). -/
+theorem ancestors_fuel_suffices {α} {now : Int} {fn : String → LM α} (hfn : ∀ n, (fn n).KeepsName)
+    {sys : Sys} (wf : SysWF sys) {path : List String} (hp : PathOK sys path) (n : String) (acc : List α)
+    {fuel fuel' : Nat} (hb : sys.length + 1 ≤ fuel + path.length) (hle : fuel ≤ fuel') :
+    doAncestors fuel' sys n now fn acc path = doAncestors fuel sys n now fn acc path :=
+  doAncestors_fuel_indep hfn fuel sys n acc path wf hp hb fuel' hle
+
+/-- in particular the model's `ancestorFuel sys = sys.length + 2` always suffices -/
+theorem ancestorFuel_suffices {α} {now : Int} {fn : String → LM α} (hfn : ∀ n, (fn n).KeepsName)
+    {sys : Sys} (wf : SysWF sys) (n : String) (acc : List α) {fuel' : Nat} (hle : ancestorFuel sys ≤ fuel') :
+    doAncestors fuel' sys n now fn acc = doAncestors (ancestorFuel sys) sys n now fn acc :=
+  doAncestors_fuel_indep hfn _ sys n acc [] wf ⟨List.nodup_nil, by simp⟩ (by simp [ancestorFuel]) fuel' hle
+
+/-- **loop_reported** — if the chain of first declared parents `n → m₁ → … → mₖ → last` comes back to `n`,
+to an earlier member of the chain or to a name on the current path, the walk answers the `AncestorLoop`
+error (it neither recurses forever nor runs out of fuel), whatever `fn` is. -/
+theorem loop_reported {α} {now : Int} (fn : String → LM α) {sys : Sys} (wf : SysWF sys) {n last : String}
+    {mid path : List String} (hc : chainFP sys now n mid last = true) (hnd : (n :: mid).Nodup)
+    (hnp : ∀ x ∈ n :: mid, x ∉ path) (hlast : last ∈ n :: mid ∨ last ∈ path) (hpk : ∀ p ∈ path, p ∈ sys.keys)
+    {fuel : Nat} (hf : mid.length + 2 ≤ fuel) (acc : List α) :
+    (doAncestors fuel sys n now fn acc path).2 = .error "loop" :=
+  doAncestors_loop fn mid sys n last path fuel acc wf hc hnd hnp hlast hpk hf
+
+private theorem fresh_wf (k : Kind) : SysWF (Sys.fresh k ["a", "b"]) :=
+  ⟨by simp [Sys.fresh, Sys.keys], by intro k l h; simp [Sys.fresh] at h; rcases h with ⟨rfl, rfl⟩ | ⟨rfl, rfl⟩ <;> rfl⟩
+
+/-- self loop `a → a`, built with the model's `SetParents`: inherited search answers `loop` -/
+example (k : Kind) (c : Ctx) (p : Obj) :
+    (sysSearchFacts (exSelfLoop k) c "a" p true 7).2 = .error "loop" := by
+  have wf : SysWF (exSelfLoop k) := Sys.at_wf (fresh_wf k) _ _
+  have hc : chainFP (exSelfLoop k) 7 "a" [] "a" = true := by cases k <;> decide +kernel
+  have := loop_reported (now := 7) (fun _ => locSearchFacts c p 7) wf hc (by decide) (by simp) (by simp)
+    (path := []) (by simp) (fuel := ancestorFuel (exSelfLoop k)) (by simp [ancestorFuel]) []
+  unfold sysSearchFacts
+  simp only [if_true]
+  cases hd : doAncestors (ancestorFuel (exSelfLoop k)) (exSelfLoop k) "a" 7 (fun _ => locSearchFacts c p 7) [] with
+  | mk s r => rw [hd] at this; simp only at this; subst this; rfl
+
+/-- indirect loop `a → b → a` (the case that used to overflow the Go stack): reported as `loop` -/
+example (k : Kind) (c : Ctx) (p : Obj) :
+    (sysSearchFacts (exIndirectLoop k) c "a" p true 7).2 = .error "loop" := by
+  have wf : SysWF (exIndirectLoop k) := Sys.at_wf (Sys.at_wf (fresh_wf k) _ _) _ _
+  have hc : chainFP (exIndirectLoop k) 7 "a" ["b"] "a" = true := by cases k <;> decide +kernel
+  have hlen : (exIndirectLoop k).length = 2 := by
+    have kn := fun ps => LM.KeepsId.keepsName (locSetParents_keeps {} ps 0)
+    unfold exIndirectLoop
+    rw [Sys.at_length (Sys.at_wf (fresh_wf k) _ _) _ (kn _), Sys.at_length (fresh_wf k) _ (kn _)]; rfl
+  have := loop_reported (now := 7) (fun _ => locSearchFacts c p 7) wf hc (by decide) (by simp) (by simp)
+    (path := []) (by simp) (fuel := ancestorFuel (exIndirectLoop k)) (by simp [ancestorFuel, hlen]) []
+  unfold sysSearchFacts
+  simp only [if_true]
+  cases hd : doAncestors (ancestorFuel (exIndirectLoop k)) (exIndirectLoop k) "a" 7 (fun _ => locSearchFacts c p 7) [] with
+  | mk s r => rw [hd] at this; simp only at this; subst this; rfl
+
+/-- **parents_immediate** — after a successful `SetParents ps` at `n`, the very next parent read that
+`DoAncestors` performs at `n` (at any time) returns exactly `ps` and leaves the system unchanged: the
+`!parents` property fact is stored under the id `!.parents`, which is what `getParents` reads. -/
+theorem parents_immediate {sys sys' : Sys} (wf : SysWF sys) {c : Ctx} {n : String} {ps : List String}
+    {now : Int} {r : String} (h : sys.at n (locSetParents c ps now) = (sys', .ok r)) (now' : Int) :
+    sys'.at n (locGetParentsRaw now') = (sys', .ok ps) :=
+  setParents_at_then_read wf h now'
+
+/-- hence the next walk from `n` iterates over the new list (one unfolding of `DoAncestors`) -/
+theorem parents_immediate_walk {α} {sys sys' : Sys} (wf : SysWF sys) {c : Ctx} {n : String} {ps : List String}
+    {now : Int} {r : String} (h : sys.at n (locSetParents c ps now) = (sys', .ok r)) (now' : Int)
+    (fn : String → LM α) (acc : List α) (fuel : Nat) :
+    doAncestors (fuel + 1) sys' n now' fn acc [] =
+      if noProv sys' n ps then (sys', .error "noProvider") else
+      match walkList (fun s p a => doAncestors fuel s p now' fn a [n]) n sys' ps acc with
+      | (sys2, .error e) => (sys2, .error e)
+      | (sys2, .ok acc2) =>
+        match sys2.at n (fn n) with
+        | (sys3, .error e) => (sys3, .error e)
+        | (sys3, .ok a) => (sys3, .ok (acc2 ++ [a])) := by
+  rw [doAncestors_succ, setParents_at_then_read wf h now']
+  rfl
+
+example (k : Kind) : isOk ((Sys.fresh k ["a", "b"]).at "a" (locSetParents {} ["b"] 0)).2 = true := by
+  cases k <;> decide +kernel
